@@ -4,6 +4,7 @@ import (
 	"bufio"
 	"fmt"
 	"io"
+	"os"
 	"os/exec"
 	"strconv"
 	"strings"
@@ -34,6 +35,7 @@ type Solver struct {
 	Errors  int
 	log     io.Writer
 	timeoutMs int
+	intMode bool // terms are rendered as linear integer arithmetic (only for "safe" terms)
 }
 
 func solverArgs(name string, timeoutMs int) []string {
@@ -48,7 +50,16 @@ func solverArgs(name string, timeoutMs int) []string {
 	panic("unknown solver " + name)
 }
 
+func NewIntSolver(name string, tf *TermFactory, timeoutMs int) (*Solver, error) {
+	s, err := newSolver(name, tf, timeoutMs, true)
+	return s, err
+}
+
 func NewSolver(name string, tf *TermFactory, timeoutMs int) (*Solver, error) {
+	return newSolver(name, tf, timeoutMs, false)
+}
+
+func newSolver(name string, tf *TermFactory, timeoutMs int, intMode bool) (*Solver, error) {
 	args := solverArgs(name, timeoutMs)
 	cmd := exec.Command(args[0], args[1:]...)
 	in, err := cmd.StdinPipe()
@@ -63,9 +74,17 @@ func NewSolver(name string, tf *TermFactory, timeoutMs int) (*Solver, error) {
 	if err := cmd.Start(); err != nil {
 		return nil, err
 	}
-	s := &Solver{name: name, cmd: cmd, in: in, out: bufio.NewReader(out), defined: map[int]bool{}, tf: tf, timeoutMs: timeoutMs}
+	s := &Solver{name: name, cmd: cmd, in: in, out: bufio.NewReader(out), defined: map[int]bool{}, tf: tf, timeoutMs: timeoutMs, intMode: intMode}
+	if lf := os.Getenv("GOSYM_SMTLOG"); lf != "" {
+		f, _ := os.OpenFile(lf, os.O_CREATE|os.O_WRONLY|os.O_APPEND, 0o644)
+		s.log = f
+	}
 	s.send("(set-option :produce-models true)")
-	if name == "cvc5" {
+	if intMode {
+		s.send("(set-logic QF_LIA)")
+	} else if name == "cvc5" || name == "z3" {
+		// only Bool and BitVec sorts are ever emitted, so QF_BV cannot make z3 4.8.12 drop anything;
+		// any (error line still makes the query inconclusive
 		s.send("(set-logic QF_BV)")
 	}
 	return s, nil
@@ -95,6 +114,17 @@ func (s *Solver) define(t *Term) {
 		s.define(a)
 	}
 	s.defined[t.id] = true
+	if s.intMode {
+		if t.op == "var" {
+			s.send(fmt.Sprintf("(declare-const %s %s)", t.iref(), isortStr(t.w)))
+			if t.w != 0 {
+				s.send(fmt.Sprintf("(assert (and (<= %s %s) (<= %s %s)))", s.tf.Const(64, uint64(t.lo)).iref(), t.iref(), t.iref(), s.tf.Const(64, uint64(t.hi)).iref()))
+			}
+			return
+		}
+		s.send(fmt.Sprintf("(define-fun %s () %s %s)", t.iref(), isortStr(t.w), t.ibody()))
+		return
+	}
 	if t.op == "var" {
 		s.send(fmt.Sprintf("(declare-const %s %s)", t.ref(), sortStr(t.w)))
 		return
@@ -125,7 +155,11 @@ func (s *Solver) Check(ts []*Term, wantModel bool) (SatResult, map[string]uint64
 		if t.IsTrue() {
 			continue
 		}
-		s.send("(assert " + t.ref() + ")")
+		if s.intMode {
+			s.send("(assert " + t.iref() + ")")
+		} else {
+			s.send("(assert " + t.ref() + ")")
+		}
 	}
 	s.send("(check-sat)")
 	res := Unknown
@@ -187,7 +221,11 @@ func (s *Solver) Check(ts []*Term, wantModel bool) (SatResult, map[string]uint64
 			var sb strings.Builder
 			sb.WriteString("(get-value (")
 			for _, v := range vars {
-				sb.WriteString(v.ref() + " ")
+				if s.intMode {
+					sb.WriteString(v.iref() + " ")
+				} else {
+					sb.WriteString(v.ref() + " ")
+				}
 			}
 			sb.WriteString("))")
 			s.send(sb.String())
@@ -255,13 +293,16 @@ func parseModel(txt string, m map[string]uint64) {
 		}
 		q := p
 		if q < n && txt[q] == '(' {
-			// (_ bvN w)
+			// (_ bvN w) or (- N)
 			e := strings.IndexByte(txt[q:], ')')
 			tok := txt[q : q+e+1]
 			fs := strings.Fields(strings.Trim(tok, "()"))
 			if len(fs) >= 2 && strings.HasPrefix(fs[1], "bv") {
 				v, _ := strconv.ParseUint(fs[1][2:], 10, 64)
 				m[name] = v
+			} else if len(fs) == 2 && fs[0] == "-" {
+				v, _ := strconv.ParseInt(fs[1], 10, 64)
+				m[name] = uint64(-v)
 			}
 			i = q + e + 1
 			continue
@@ -280,6 +321,9 @@ func parseModel(txt string, m map[string]uint64) {
 			m[name] = v
 		case strings.HasPrefix(tok, "#b"):
 			v, _ := strconv.ParseUint(tok[2:], 2, 64)
+			m[name] = v
+		case len(tok) > 0 && tok[0] >= '0' && tok[0] <= '9':
+			v, _ := strconv.ParseUint(tok, 10, 64)
 			m[name] = v
 		}
 		i = q
